@@ -20,7 +20,7 @@ Fails(c) ==
       outSitePos == [s \in 1..Len(out.sites) |-> out.sites[s].pos]
       inSiteAt(p) == CHOOSE s \in 0..(Len(ts.sites) - 1) : ts.sites[s + 1].pos = p
   IN {cl \in {"nm_injective", "trees", "nodeset", "sample_order", "identity_map", "time", "flags", "mutations", "sites",
-              "genotypes", "idempotent", "individuals", "populations", "rts_trees", "rts_no_sites_no_edges", "L"} :
+              "genotypes", "idempotent", "individuals", "populations", "rts_trees", "rts_no_sites_no_edges", "L", "ragged_metadata"} :
      ~ CASE cl = "nm_injective" -> \A q \in NodesOf(out) : inv[q] # NULL
          [] cl = "L" -> out.L = ts.L
          [] cl = "trees" -> o.reduce_to_site_topology = 1 \/ \A x \in 0..(ts.L - 1) : OutEdgesAt(c, x) = ExpectedEdges(ts, x, S, o)
@@ -51,6 +51,9 @@ Fails(c) ==
          [] cl = "genotypes" -> \A s \in 0..(Len(out.sites) - 1) : \A i \in 1..Len(c.samples) :
                                    StateOf(out, s, c.nm[c.samples[i] + 1]) = StateOf(ts, inSiteAt(out.sites[s + 1].pos), c.samples[i])
          [] cl = "idempotent" -> c.idem = 1
+         \* the same call with the metadata of a random subset of input rows removed gives row for row the same tables,
+         \* each output row carrying the metadata (or none) of the input row it came from
+         [] cl = "ragged_metadata" -> c.ragged_ok = 1
          [] cl = "individuals" -> IF o.filter_individuals = 1
                                   THEN ToSet(out.ind_rows) = {ts.ind_tag[u + 1] : u \in mapped} \ {NULL}
                                   ELSE out.ind_rows = ts.ind_rows
